@@ -38,6 +38,8 @@ NameBytes(n) == CASE n = "a" -> <<97>>
                   [] n = "u" -> <<117>>
                   [] n = "v" -> <<118>>
                   [] n = "w" -> <<119>>
+                  [] n = "Q" -> <<113, 34, 92, 9, 195, 169>>      \* a block name that needs escapes in its literal: q " \ TAB e-acute
+                  [] n = "H" -> <<65>>                            \* the block name A, written \x41
                   [] n = "x" -> <<120>>
                   [] n = "y" -> <<121>>
                   [] n = "z" -> <<122>>
@@ -262,13 +264,15 @@ KwBytes(k) == CASE k = "var" -> <<118, 97, 114>> [] k = "print" -> <<112, 114, 1
 SelBytes(s) == CASE s = "one" -> <<58, 49>> [] s = "first" -> <<58, 102, 105, 114, 115, 116>> [] s = "last" -> <<58, 108, 97, 115, 116>>
                  [] s = "all" -> <<58, 97, 108, 108>> [] s = "none" -> <<>> [] s = "bogus" -> <<58, 97, 110, 121>>
 TgtBytes(t) == CASE t = "struct" -> <<115, 116, 114, 117, 99, 116>> [] t = "slice" -> <<115, 108, 105, 99, 101>> [] t = "bogus" -> <<109, 97, 112>>
+\* the literal of a block name: escapes where needed (the value is NameBytes)
+DefNameSpell(nm) == IF nm = "H" THEN <<92, 120, 52, 49>> ELSE EscPlain(NameBytes(nm))
 RECURSIVE RenSeq(_)
 RenStmt(s) ==
   CASE s[1] = "var" -> KwBytes("var") \o SP \o NameBytes(s[2]) \o (IF s[3] THEN SP \o <<61>> \o SP \o Ren(s[4], 1) ELSE <<>>) \o <<59, 10>>
     [] s[1] = "print" -> KwBytes("print") \o SP \o Ren(s[4], 1) \o <<59, 10>>
     [] s[1] = "eval" -> KwBytes("eval") \o SP \o Ren(s[4], 1) \o <<59, 10>>
     [] s[1] = "expr" -> Ren(s[4], 1) \o <<59, 10>>
-    [] s[1] = "def" -> KwBytes("def") \o SP \o NameBytes(s[2]) \o (IF s[3] = "" THEN <<>> ELSE SP \o <<34>> \o NameBytes(s[3]) \o <<34>>)
+    [] s[1] = "def" -> KwBytes("def") \o SP \o NameBytes(s[2]) \o (IF s[3] = "" THEN <<>> ELSE SP \o <<34>> \o DefNameSpell(s[3]) \o <<34>>)
                        \o SP \o <<123, 10>> \o RenSeq(s[4]) \o <<125, 10>>
     [] s[1] = "bind" -> KwBytes("bind") \o SP \o NameBytes(s[2]) \o SelBytes(s[3]) \o SP \o <<45, 62>> \o SP \o TgtBytes(s[4]) \o <<10>>
 RenSeq(ss) == IF ss = <<>> THEN <<>> ELSE RenStmt(Head(ss)) \o RenSeq(Tail(ss))
